@@ -841,6 +841,33 @@ class Fold(ast.NodeTransformer):
         self.generic_visit(node)
         if isinstance(node.test, ast.Constant) and isinstance(node.test.value, (bool, type(None), int)):
             return self.hit(node.body if node.test.value else node.orelse, node)
+        # A if x is None else B  ->  B if x is not None else A       (one orientation for the None test; `not C` likewise)
+        t = node.test
+        if (isinstance(t, ast.Compare) and len(t.ops) == 1 and isinstance(t.ops[0], ast.Is) and isinstance(t.comparators[0], ast.Constant) and t.comparators[0].value is None) \
+                or (isinstance(t, ast.UnaryOp) and isinstance(t.op, ast.Not)):
+            return self.hit(ast.IfExp(test=_neg(t), body=node.orelse, orelse=node.body), node)
+        return node
+
+    def visit_JoinedStr(self, node):
+        self.generic_visit(node)
+        # f"{f'a {x}'}{y}" -> f"a {x}{y}" : a nested f-string / string literal without conversion or format spec is part of the outer one
+        if any(isinstance(v, ast.FormattedValue) and v.conversion == -1 and v.format_spec is None and (isinstance(v.value, ast.JoinedStr) or (isinstance(v.value, ast.Constant) and isinstance(v.value.value, str)))
+               for v in node.values):
+            vals = []
+            for v in node.values:
+                if isinstance(v, ast.FormattedValue) and v.conversion == -1 and v.format_spec is None and isinstance(v.value, ast.JoinedStr):
+                    vals.extend(v.value.values)
+                elif isinstance(v, ast.FormattedValue) and v.conversion == -1 and v.format_spec is None and isinstance(v.value, ast.Constant) and isinstance(v.value.value, str):
+                    vals.append(v.value)
+                else:
+                    vals.append(v)
+            merged = []
+            for v in vals:
+                if isinstance(v, ast.Constant) and merged and isinstance(merged[-1], ast.Constant):
+                    merged[-1] = ast.Constant(value=merged[-1].value + v.value)
+                else:
+                    merged.append(v)
+            return self.hit(ast.JoinedStr(values=merged), node)
         return node
 
 
@@ -1477,6 +1504,9 @@ def _record_objects(fn):
         if info.loops.get(id(asg), True) and not _later_in_same_block(fn, asg, [n for n in ast.walk(fn) if isinstance(n, ast.Name) and n.id == name and n is not asg.targets[0]]):
             continue
         fields, defaults, kind = _RECORDS[val.func.id]
+        starred_all = len(val.args) == 1 and isinstance(val.args[0], ast.Starred) and not val.keywords and not defaults
+        if starred_all:
+            val = ast.Call(func=val.func, args=[ast.Name(id='__star_%s_%d' % (name, i), ctx=ast.Load()) for i in range(len(fields))], keywords=[])
         if any(isinstance(a, ast.Starred) for a in val.args) or any(k.arg is None for k in val.keywords) or len(val.args) > len(fields):
             continue
         bound = dict(zip(fields, val.args))
@@ -1570,10 +1600,15 @@ def _record_objects(fn):
                 return n
         Rp().visit(fn)
         new = []
-        for f in order_:
-            a = ast.Assign(targets=[ast.Name(id=local(f), ctx=ast.Store())], value=bound[f])
+        if starred_all:
+            a = ast.Assign(targets=[ast.Tuple(elts=[ast.Name(id=local(f), ctx=ast.Store()) for f in fields], ctx=ast.Store())], value=asg.value.args[0].value)
             ast.copy_location(a, asg)
             new.append(a)
+        else:
+            for f in order_:
+                a = ast.Assign(targets=[ast.Name(id=local(f), ctx=ast.Store())], value=bound[f])
+                ast.copy_location(a, asg)
+                new.append(a)
 
         class Ins(ast.NodeTransformer):
             def generic_visit(self, n):
@@ -2992,6 +3027,57 @@ def _head_tail_destructure(fn):
     return False
 
 
+def _conditional_displays(fn):
+    """X = (a, *[t for t in (u, v) if C(t)], b)      ->   X = (a,) ; if C(u): X += (u,) ; if C(v): X += (v,) ; X += (b,)
+    (the filtered comprehension over a literal tuple of names spelled as the conditional appends it stands for)"""
+    for n in ast.walk(fn):
+        for fld in ('body', 'orelse', 'finalbody'):
+            blk = getattr(n, fld, None)
+            if not (isinstance(blk, list) and blk and isinstance(blk[0], ast.stmt)):
+                continue
+            for i, st in enumerate(blk):
+                if not (isinstance(st, ast.Assign) and len(st.targets) == 1 and isinstance(st.targets[0], ast.Name) and isinstance(st.value, (ast.Tuple, ast.List))):
+                    continue
+                X = st.targets[0].id
+                stars = [j for j, e in enumerate(st.value.elts) if isinstance(e, ast.Starred)]
+                if len(stars) != 1:
+                    continue
+                j = stars[0]
+                comp = st.value.elts[j].value
+                if isinstance(comp, ast.Call) and isinstance(comp.func, ast.Name) and comp.func.id in ('tuple', 'list') and len(comp.args) == 1 and not comp.keywords:
+                    comp = comp.args[0]
+                if not (isinstance(comp, (ast.ListComp, ast.GeneratorExp)) and len(comp.generators) == 1):
+                    continue
+                g = comp.generators[0]
+                if not (g.ifs and isinstance(g.target, ast.Name) and isinstance(comp.elt, ast.Name) and comp.elt.id == g.target.id and isinstance(g.iter, (ast.Tuple, ast.List))
+                        and g.iter.elts and all(isinstance(e, (ast.Name, ast.Attribute)) and _pure(e) for e in g.iter.elts)):
+                    continue
+                others = st.value.elts[:j] + st.value.elts[j + 1:]
+                if any(isinstance(y, ast.Name) and y.id == X for e in st.value.elts for y in ast.walk(e)) or not all(_pure(e) for e in others):
+                    continue
+                v = g.target.id
+                disp = type(st.value)
+
+                def one(items):
+                    return disp(elts=list(items), ctx=ast.Load())
+                new = [ast.Assign(targets=[ast.Name(id=X, ctx=ast.Store())], value=one(st.value.elts[:j]))]
+                for item in g.iter.elts:
+                    class Sb(ast.NodeTransformer):
+                        def visit_Name(self, y):
+                            return copy.deepcopy(item) if y.id == v and isinstance(y.ctx, ast.Load) else y
+                    conds = [Sb().visit(copy.deepcopy(c)) for c in g.ifs]
+                    test = conds[0] if len(conds) == 1 else ast.BoolOp(op=ast.And(), values=conds)
+                    new.append(ast.If(test=test, body=[ast.AugAssign(target=ast.Name(id=X, ctx=ast.Store()), op=ast.Add(), value=one([copy.deepcopy(item)]))], orelse=[]))
+                if st.value.elts[j + 1:]:
+                    new.append(ast.AugAssign(target=ast.Name(id=X, ctx=ast.Store()), op=ast.Add(), value=one(st.value.elts[j + 1:])))
+                for x_ in new:
+                    ast.copy_location(x_, st)
+                    ast.fix_missing_locations(x_)
+                blk[i:i + 1] = new
+                return True
+    return False
+
+
 def _forward_temps(fn):
     """t = E ; TARGET = t      ->  TARGET = E        (adjacent statements; t bound once and read once - by that copy; TARGET may be a global, an
     attribute or a subscript whose own sub-expressions are effect free)"""
@@ -3125,6 +3211,7 @@ def simplify_function(fn, ctx, inliner, cls):
         changed |= _globals_subscripts(fn)
         changed |= _yield_from_genexp(fn)
         changed |= _for_over_genexp(fn)
+        changed |= _conditional_displays(fn)
         if _propagate_locals(fn, ctx):
             changed = True
         elif _record_dicts(fn):
